@@ -39,6 +39,13 @@ def _n_groups(spec, axis):
     return len(set(d['values'])) if d else len(spec['rdm_uids' if axis == 'rdm' else 'cond_uids'])
 
 
+
+def _nb(x):
+    """bytes of a numeric array with every NaN in one canonical form (the sign bit / payload of a NaN is not a value)"""
+    x = np.asarray(x)
+    return np.where(np.isnan(x), np.nan, x).tobytes() if x.dtype.kind in 'fc' else x.tobytes()
+
+
 def gen_plan(rng, tier, index):
     big = tier == 'thorough'
     mode = 'B' if rng.chance(0.22) else ('C' if rng.chance(0.1) else 'A')
@@ -818,7 +825,7 @@ def execute(plan, ctx):
                                   f'{g} fold {f}: altering dissimilarities of test-only conditions {sorted(test_only_c)} / '
                                   f'test-only RDMs {sorted(test_only_r)} changed the data handed to the fitter of model {a["model"]}')
                     return
-                if a['theta'].tobytes() != b['theta'].tobytes():
+                if _nb(a['theta']) != _nb(b['theta']):
                     ctx.violation('noninterf.theta', f'{g}:B:theta-depends-on-test-data',
                                   f'{g} fold {f}: altering test-only data changed fitted theta of {a["model"]}: '
                                   f'{a["theta"].tolist()} -> {b["theta"].tolist()}')
@@ -828,7 +835,7 @@ def execute(plan, ctx):
             if len(rec['used']) == nf_all * nm and len(rep['used']) == nf_all * nm:
                 for j in range(nm):
                     a, b = rec['used'][f * nm + j], rep['used'][f * nm + j]
-                    if a[1].tobytes() != b[1].tobytes():
+                    if _nb(a[1]) != _nb(b[1]):
                         ctx.violation('noninterf.theta_used', f'{g}:B:used-theta-depends-on-test-data',
                                       f'{g} fold {f}: altering test-only data (conditions {sorted(test_only_c)}, RDMs '
                                       f'{sorted(test_only_r)}) changed the parameters used for model {a[0]}: '
